@@ -8,7 +8,7 @@ for sid in $ids; do
   d=/tmp/seedregress_$sid
   git -C /repo worktree remove --force $d >/dev/null 2>&1
   git -C /repo worktree add -q --detach $d HEAD || { echo "$sid WORKTREE-FAIL"; continue; }
-  if ! git -C $d apply seeded/$sid/patch.diff 2>/dev/null && ! git -C $d apply -3 seeded/$sid/patch.diff 2>/dev/null; then
+  if ! git -C $d apply /verif/seeded/$sid/patch.diff 2>/dev/null && ! git -C $d apply -3 /verif/seeded/$sid/patch.diff 2>/dev/null; then
     echo "$sid NOAPPLY"; git -C /repo worktree remove --force $d; continue
   fi
   checks=$(/venv/bin/python -c "import json;print(' '.join(json.load(open('seeded/$sid/meta.json'))['checks_run']))")
